@@ -101,7 +101,7 @@ func (opts *CBCEncrypterOpts) Decrypt(key, ciphertext []byte) ([]byte, error) {
 		return nil, err
 	}
 	blockSize := block.BlockSize()
-	if len(ciphertext) <= blockSize {
+	if len(ciphertext) <= blockSize || len(ciphertext)%blockSize != 0 {
 		return nil, ErrDecryption
 	}
 	iv := ciphertext[:blockSize]
@@ -144,7 +144,7 @@ func (opts *ECBEncrypterOpts) Decrypt(key, ciphertext []byte) ([]byte, error) {
 	if err != nil {
 		return nil, err
 	}
-	if len(ciphertext) == 0 {
+	if len(ciphertext) == 0 || len(ciphertext)%block.BlockSize() != 0 {
 		return nil, ErrDecryption
 	}
 	plaintext := make([]byte, len(ciphertext))
